@@ -198,8 +198,8 @@ func checkUploadHasMarkers(f *Fleet, i int) error {
 	return nil
 }
 
-// checkDeletedAbsent (C04): when every newest version an instance has seen is a
-// deletion the key is absent from the application's view.
+// checkDeletedAbsent (C04): when a deletion is among the newest versions an instance has seen (highest timestamp),
+// the key is absent from the application's view.
 func checkDeletedAbsent(f *Fleet, i int) error {
 	in := f.Insts[i]
 	ver, app, err := f.Content(i)
@@ -208,13 +208,15 @@ func checkDeletedAbsent(f *Fleet, i int) error {
 	}
 	for dbi, m := range in.Seen {
 		for k, vs := range m {
-			allDel := true
+			// a deletion at T stays in force until a version with a timestamp ABOVE T arrives: among the newest versions this
+			// instance has seen, a deletion decides (a live version with the same timestamp does not win against it)
+			anyDel := false
 			for _, v := range vs.ArgMax() {
-				if !v.Del {
-					allDel = false
+				if v.Del {
+					anyDel = true
 				}
 			}
-			if !allDel {
+			if !anyDel {
 				continue
 			}
 			if f.Native {
